@@ -6,6 +6,7 @@ import (
 	"math"
 	"strconv"
 	"strings"
+	"unicode/utf8"
 )
 
 func funcToLower(kv KVPair, args []Expression, ctx *ExecuteCtx) (any, error) {
@@ -14,7 +15,7 @@ func funcToLower(kv KVPair, args []Expression, ctx *ExecuteCtx) (any, error) {
 		return nil, err
 	}
 	arg := toString(rarg)
-	return strings.ToLower(arg), nil
+	return toLowerString(arg), nil
 }
 
 func funcToUpper(kv KVPair, args []Expression, ctx *ExecuteCtx) (any, error) {
@@ -23,7 +24,36 @@ func funcToUpper(kv KVPair, args []Expression, ctx *ExecuteCtx) (any, error) {
 		return nil, err
 	}
 	arg := toString(rarg)
-	return strings.ToUpper(arg), nil
+	return toUpperString(arg), nil
+}
+
+// toLowerString and toUpperString keep the bytes of values that are not
+// valid UTF-8 (strings.ToLower would replace them by U+FFFD), only ASCII
+// letters are converted in that case
+func toLowerString(s string) string {
+	if utf8.ValidString(s) {
+		return strings.ToLower(s)
+	}
+	b := []byte(s)
+	for i, c := range b {
+		if 'A' <= c && c <= 'Z' {
+			b[i] = c + 'a' - 'A'
+		}
+	}
+	return string(b)
+}
+
+func toUpperString(s string) string {
+	if utf8.ValidString(s) {
+		return strings.ToUpper(s)
+	}
+	b := []byte(s)
+	for i, c := range b {
+		if 'a' <= c && c <= 'z' {
+			b[i] = c - ('a' - 'A')
+		}
+	}
+	return string(b)
 }
 
 func funcToInt(kv KVPair, args []Expression, ctx *ExecuteCtx) (any, error) {
